@@ -1,6 +1,7 @@
 package main
 
 import (
+	"os"
 	"fmt"
 	"go/constant"
 	"go/token"
@@ -988,6 +989,9 @@ func (x *X) fireSiteAsserts(fr *frame, in ssa.Instruction) {
 	if _, isDbg := in.(*ssa.DebugRef); isDbg {
 		return
 	}
+	if x.noOblig > 0 {
+		return // a trial pass (loop peeling): the assertion belongs to the pass that counts
+	}
 	pos := in.Pos()
 	if !pos.IsValid() {
 		return
@@ -995,6 +999,9 @@ func (x *X) fireSiteAsserts(fr *frame, in ssa.Instruction) {
 	line := x.prog.lineText(pos)
 	if line == "" {
 		return
+	}
+	if os.Getenv("GOVC_SITEDEBUG") != "" {
+		fmt.Fprintf(os.Stderr, "site %T %d: %s\n", in, x.prog.Fset.Position(pos).Line, strings.TrimSpace(line))
 	}
 	for i, sa := range x.siteAsserts {
 		if !strings.Contains(line, sa.At) {
